@@ -112,6 +112,10 @@ class World:
         if kind == 'bitarray':
             import bitarray
             return bitarray.bitarray(s)
+        if kind == 'bitarray_le':
+            # the same sequence of bits held by a little-endian bitarray (its bytes differ, its bits do not)
+            import bitarray
+            return bitarray.bitarray(s, endian='little')
         if kind in enc.CLS_CODE:
             return self.cls(kind)(bin=s)
         raise ValueError('unknown literal kind ' + kind)
@@ -126,7 +130,7 @@ class World:
             o = self.objs[x['id']]
             p = enc.project(o)
             return {'k': 'obj', 'id': x['id'], 'kind': p['c'], 'v': p['v']}
-        return {'k': 'lit', 'id': '', 'kind': x['kind'], 'v': list(x['v'])}
+        return {'k': 'lit', 'id': '', 'kind': 'bitarray' if x['kind'] == 'bitarray_le' else x['kind'], 'v': list(x['v'])}
 
     # ---- projection ----------------------------------------------------
     def proj(self, o):
@@ -305,6 +309,10 @@ def _mk(w, c):
         return cls(w.make_lit('bitarray', bits), **kw)
     if route == 'bitarray_kw':
         return cls(bitarray=w.make_lit('bitarray', bits), **kw)
+    if route == 'bitarray_le':
+        return cls(w.make_lit('bitarray_le', bits), **kw)
+    if route == 'bitarray_le_kw':
+        return cls(bitarray=w.make_lit('bitarray_le', bits), **kw)
     if route == 'bytes_len':
         pad = bits + [0] * ((8 - n % 8) % 8)
         return cls(bytes=w.make_lit('bytes', pad), length=n, **kw)
@@ -1284,6 +1292,8 @@ def _mkwin(w, c):
         kw['pos'] = pos
     if kind == 'bitarray_kw':
         return cls(bitarray=w.make_lit('bitarray', bits), **kw)
+    if kind == 'bitarray_le_kw':
+        return cls(bitarray=w.make_lit('bitarray_le', bits), **kw)
     data = w.make_lit('bytes', bits)
     if kind == 'bytes':
         return cls(bytes=data, **kw)
